@@ -521,7 +521,7 @@ func Render(c Case, caught bool) Rendered {
 		w.sep()
 	}
 	r.context(w, 0)
-	if r.tp.next(2) == 0 {
+	if r.tp.next(2) == 0 && !(r.synEOF && r.tp.next(4) != 0) {
 		w.newline()
 	}
 	var feats []string
@@ -807,7 +807,7 @@ func (r *renderer) context(w *writer, k int) {
 					// text after the truncation point, still on the last line
 					inComment := sp.openComment
 					switch r.tp.next(6) {
-					case 0, 1:
+					case 0, 1, 4:
 						if inComment { // the comment is the thing left open: stay inside it
 							w.raw(" " + w.commentText())
 						} else {
